@@ -786,6 +786,35 @@ class Ghost:
         rng = z3.And(m >= zint(int_term(lo)), m < zint(int_term(hi)))
         return SBool(z3.ForAll([m], z3.Implies(rng, bt)))
 
+    def vc_count(self, args, kwargs, node):
+        """vc.count(bools): how many of the (possibly symbolic) booleans hold -- no case split"""
+        from .values import mk_int
+
+        total = 0
+        for b in lib.iterate(self.I, args[0], node):
+            if isinstance(b, SBool):
+                total = total + z3.If(b.t, z3.IntVal(1), z3.IntVal(0))
+            elif isinstance(b, bool):
+                total = total + (1 if b else 0)
+            else:
+                raise OutsideSubset("vc.count of a non-boolean")
+        return mk_int(total) if not isinstance(total, int) else total
+
+    def vc_ite(self, args, kwargs, node):
+        """vc.ite(c, a, b): a if c else b for integers / booleans, without a case split"""
+        from .values import mk_bool, mk_int
+
+        c, a, b = args
+        if isinstance(c, bool):
+            return a if c else b
+        if not isinstance(c, SBool):
+            raise OutsideSubset("vc.ite on a non-boolean condition")
+        if isinstance(a, (bool, SBool)) and isinstance(b, (bool, SBool)):
+            ta = a.t if isinstance(a, SBool) else z3.BoolVal(a)
+            tb = b.t if isinstance(b, SBool) else z3.BoolVal(b)
+            return mk_bool(z3.If(c.t, ta, tb))
+        return mk_int(z3.If(c.t, zint(int_term(a)), zint(int_term(b))))
+
     def vc_raw(self, args, kwargs, node):
         """vc.raw(fn): evaluate fn() reading symbolic sequences as total functions of the
         index (no bounds checks, no forks) -- for instantiating quantified facts by hand"""
